@@ -203,29 +203,29 @@ pub fn nack_step<S: Src, const N: usize>(s: &mut S) {
     vcover!(matches!(want, Some((_, _, n)) if n > 2), "value from the bitmask");
 }
 
-/// NACK through the public iterator only: one word, full iteration against the RFC sequence.
+/// NACK through the public iterator only (no hook): the first two values of a one-word list
+/// against the RFC sequence, for all 2^32 words in one query.
 pub fn nack_word_public<S: Src>(s: &mut S) {
     let data: [u8; 4] = s.bytes();
-    let k = s.upto(17);
     let nack = <Nack as FciParser>::parse(&data).unwrap();
-    let got = nack.entries().nth(k);
+    let mut it = nack.entries();
+    let first = it.next();
+    let second = it.next();
     let pid = be16(&data, 0);
     let blp = be16(&data, 2);
-    // k-th present slot
-    let mut seen = 0;
+    assert!(first == Some(pid));
+    // lowest set bit k-1 gives PID + k
     let mut want = None;
-    let mut slot = 0;
-    while slot <= 16 {
-        if slot == 0 || blp & (1 << (slot - 1)) != 0 {
-            if seen == k {
-                want = Some(pid.wrapping_add(slot as u16));
-            }
-            seen += 1;
+    let mut slot = 16;
+    while slot >= 1 {
+        if blp & (1 << (slot - 1)) != 0 {
+            want = Some(pid.wrapping_add(slot as u16));
         }
-        slot += 1;
+        slot -= 1;
     }
-    assert!(got == want);
-    vcover!(k == 16 && got.is_some(), "all 17 values present");
+    assert!(second == want);
+    vcover!(second.is_some() && pid > 0xfff0, "second value wraps around");
+    vcover!(second.is_none(), "empty bitmask");
 }
 
 common::register! {
